@@ -47,7 +47,7 @@ MUTANTS = [
      "    print_dualstack();\n    if (env->curr_op_seq < count && env->curr_op_seq > 0) {\n        printf(\"%s\\n\", script_lines[env->curr_op_seq - 1]);\n    }\n    return 0;\n}\n\nint fn_rewind", ["C12"]),
     ("listing-uppercase-name", "btcdeb.cpp", "snprintf(pbuf, 1024 - (pbuf - buf), \"%s\", GetOpName(opcode).c_str());", "snprintf(pbuf, 1024 - (pbuf - buf), \"%s\", opcode == OP_NIP ? \"OP_DROP\" : GetOpName(opcode).c_str());", ["C12"]),
     ("exec-no-exception-guard", "instance.cpp", "    } catch (const std::exception& ex) {\n        fprintf(stderr, \"Error: exception thrown: %s\\n\", ex.what());\n        ok = false;\n    }\n", "    } catch (const std::bad_alloc& ex) {\n        ok = false;\n    }\n", ["C16", "C15"]),
-    ("exec-codesep-dangling", "instance.cpp", "        env->pbegincodehash = env->pc;\n", "", ["C16"]),
+    ("exec-codesep-dangling", "instance.cpp", "                env->pbegincodehash = codehash_before = env->pc;\n", "                codehash_before = env->pbegincodehash;\n", ["C16", "C15"]),
     ("exec-skips-last-token", "instance.cpp", "    for (int i = 0; i < argc; i++) {\n        const char* v = argv[i];\n        const size_t vlen = strlen(v);\n        // empty strings are ignored", "    for (int i = 0; i + 1 < argc || i == 0; i++) {\n        const char* v = argv[i];\n        const size_t vlen = strlen(v);\n        // empty strings are ignored", ["C16"]),
     ("exec-moves-position", "instance.cpp", "    return ok;\n}\n\nbool Instance::configure_tx_txin", "    if (ok && argc > 3) env->curr_op_seq++;\n    return ok;\n}\n\nbool Instance::configure_tx_txin", ["C16"]),
     ("exec-ignores-local-script", "script/interpreter.cpp", "    auto& script = local_script ? *local_script : env.script;", "    auto& script = env.script; (void)local_script;", ["C16", "C15"]),
